@@ -35,6 +35,8 @@ def main(argv):
         print(f'  observed: {vio.get("observed", "")}')
         print(f'VIOLATION property={rec["property"]} replay={os.path.abspath(argv[1])}')
         return 1
+    if argv[0] == 'child':
+        return importlib.import_module(argv[1]).child_main(argv[2:])
     if argv[0] == 'selftest':
         mod = importlib.import_module('selftest.' + argv[1])
         return mod.main(argv[2:])
